@@ -43,6 +43,8 @@ def scopes(quick: bool):
         ("P-plain", "", "a: \n#-", 6 if q else 7, ""),
         ("Q1-single", "k: '", "a' \n#:\"", 5 if q else 6, ""),
         ("Q2-double", 'k: "', 'a"\\nx4 \n', 5 if q else 6, ""),
+        ("Q3-dq-tab", 'k: "a\n', '\t b"\\\n', 4 if q else 5, ""),       # tabs in the leading white space of continuation lines
+        ("Q3-sq-tab", "k: 'a\n", "\t b'\n", 4 if q else 5, ""),
         ("H-hexU", 'k: "\\U00', '01F"', 7 if q else 8, ""),
         ("H-hexux", 'k: "\\', 'xu0D8F"', 5 if q else 6, ""),
         ("H-hexsign", 'k: "\\x', '-+_ 1F"', 4 if q else 5, ""),        # what int(s, 16) would accept but a hex escape does not
